@@ -15,7 +15,8 @@ C16-numeric-group-key, C16-sci-string-numbering):
   `fillna` of the bounds, text columns)
 * glotaran/utils/io.py              `safe_dataframe_fillna`, `safe_dataframe_replace`
 * glotaran/utils/sanitize.py        `sanitize_parameter_list`, `convert_scientific_to_float`
-  (the regular expression `number_scientific` as a hand-written scanner, prefix match)
+  (the regular expression `number_scientific` as a hand-written scanner, applied with `fullmatch`
+  since the `fix:` commit e7da7c2: the whole string has to be the number)
 
 Not modelled (parameters of the model, observed by the correspondence): the bytes of the file
 formats.  A table is a `Frame` of typed cells; what pandas' reader makes of the table a writer
@@ -337,7 +338,7 @@ def roundtrip (parse : ParseTab) (F : C12.Funs) (fmt : Format) (replaceInf : Boo
     Except Err (List Param) :=
   loadFrame parse F (readFrame fmt (saveFrame (replaceInf || fmt = .excel) ps))
 
-/-! ### scientific-notation strings (`number_scientific.match`, a prefix match) -/
+/-! ### scientific-notation strings (`number_scientific.fullmatch`: the whole string is the number) -/
 
 /-- `[0-9]` -/
 def isDigit (c : Char) : Bool := c.isDigit
@@ -347,23 +348,33 @@ def skipSign : List Char → List Char
   | '-' :: r => r
   | cs => cs
 
-/-- `[-+]?[0-9]*\.?[0-9]+([eE][-+]?[0-9]+)` at the start of the string: optional sign, then either
-    digits (at least one) or digits, a dot and at least one digit, then the exponent -/
-def sciMatchChars (cs : List Char) : Bool :=
-  let cs := skipSign cs
+/-- `[0-9]*\.?[0-9]+` at the start: either digits (at least one) or digits, a dot and at least one digit;
+    what follows the mantissa (`none`: there is no mantissa) -/
+def sciMantissa (cs : List Char) : Option (List Char) :=
   let d1 := cs.takeWhile isDigit
   let r1 := cs.dropWhile isDigit
-  let afterMantissa : Option (List Char) :=
-    match r1 with
-    | '.' :: r2 =>
-      let d2 := r2.takeWhile isDigit
-      if d2.isEmpty then none else some (r2.dropWhile isDigit)
-    | _ => if d1.isEmpty then none else some r1
-  match afterMantissa with
+  match r1 with
+  | '.' :: r2 =>
+    let d2 := r2.takeWhile isDigit
+    if d2.isEmpty then none else some (r2.dropWhile isDigit)
+  | _ => if d1.isEmpty then none else some r1
+
+/-- `([eE][-+]?[0-9]+)` and then the end of the string: `e` or `E`, optional sign, at least one digit,
+    nothing after the digits -/
+def sciExponent : List Char → Bool
+  | e :: r3 =>
+    if e == 'e' || e == 'E' then
+      let r4 := skipSign r3
+      !(r4.takeWhile isDigit).isEmpty && (r4.dropWhile isDigit).isEmpty
+    else false
+  | [] => false
+
+/-- `[-+]?[0-9]*\.?[0-9]+([eE][-+]?[0-9]+)` matching the whole string: optional sign, mantissa, exponent
+    and nothing after it -/
+def sciMatchChars (cs : List Char) : Bool :=
+  match sciMantissa (skipSign cs) with
   | none => false
-  | some (e :: r3) =>
-    if e == 'e' || e == 'E' then !((skipSign r3).takeWhile isDigit).isEmpty else false
-  | some [] => false
+  | some r => sciExponent r
 
 def sciMatch (s : String) : Bool := sciMatchChars s.toList
 
@@ -400,7 +411,8 @@ mutual
     | cons (key : String) (n : Node) (rest : Kids)
 end
 
-/-- `convert_scientific_to_float` on one list element -/
+/-- `convert_scientific_to_float` on one list element: a str that is a scientific-notation number in
+    full becomes `float(s)`, every other str (also one with a number-like prefix, `1e3x`) is kept -/
 def sanitizeAtom (T : FloatTab) : Atom → Except Err Atom
   | .cell (.str s) =>
     if sciMatch s then
@@ -661,7 +673,7 @@ structure DState where
     `fromframe [columns] [[cell,…]]` Parameters.from_dataframe
     `fromlist [item,…]`              Parameters.from_list
     `fromdict [[key,node],…]`        Parameters.from_dict
-    `sci <text>`                     does number_scientific match (prefix): T|F
+    `sci <text>`                     does number_scientific match the whole text (fullmatch): T|F
     `validlabel <text>`              valid_label accepts: T|F
     `consts`                         the regenerated tables the model uses -/
 def driverStep (s : DState) (ts : List Tree) : DState × String :=
